@@ -137,7 +137,8 @@ def shape(x, depth=0):
 
 
 NS_ATOMS = ['/', '/a', '/b', '/chat', '/a-b', '/1', '/12', '/a/b', '/-',
-            '/a1-', '/é', '/😀', '/A_b.c', '/ns with space', '/0-1']
+            '/a1-', '/é', '/😀', '/A_b.c', '/ns with space', '/0-1',
+            '/chat/', '/a/b/', '//', '/ /', '/a//b', '/.', '/#x', '/%2F']
 
 
 def gen_namespace(rng, allow_none=False, simple=False):
